@@ -108,6 +108,9 @@ func (g *planGen) collLen(path string, depth int) int {
 	if depth >= 2 {
 		max = 3
 	}
+	if depth == 0 && g.pick(40, path, "long") == 0 {
+		return 9 + g.pick(24, path, "longlen")
+	}
 	return g.pick(max, path, "len")
 }
 
@@ -132,7 +135,7 @@ func (g *planGen) knownAttr(a *spec.Attr, t attr.Type, ft reflect.Type, p string
 		n := g.collLen(p, depth)
 		elems := map[string]tftypes.Value{}
 		for i := 0; i < n; i++ {
-			k := mapKeys[(g.pick(len(mapKeys), p, "keybase")+i)%len(mapKeys)]
+			k := planKey(g, p, i)
 			elems[k] = g.knownLeaf(a, mt.ElemType.TerraformType(ctx), ft.Elem(), fmt.Sprintf("%s{%s}", p, k))
 		}
 		return tftypes.NewValue(tt, elems)
@@ -154,7 +157,7 @@ func (g *planGen) knownAttr(a *spec.Attr, t attr.Type, ft reflect.Type, p string
 		n := g.collLen(p, depth)
 		elems := map[string]tftypes.Value{}
 		for i := 0; i < n; i++ {
-			k := mapKeys[(g.pick(len(mapKeys), p, "keybase")+i)%len(mapKeys)]
+			k := planKey(g, p, i)
 			elems[k] = g.knownMsg(a.Msg, ot, elemStructType(ft), fmt.Sprintf("%s{%s}", p, k), depth+1)
 		}
 		return tftypes.NewValue(tt, elems)
@@ -787,4 +790,11 @@ func classAt(ms *spec.Msg, path string) string {
 		c += " (in element)"
 	}
 	return c
+}
+
+func planKey(g *planGen, p string, i int) string {
+	if i >= len(mapKeys) {
+		return fmt.Sprintf("key%03d", i)
+	}
+	return mapKeys[(g.pick(len(mapKeys), p, "keybase")+i)%len(mapKeys)]
 }
